@@ -28,6 +28,44 @@ warnings.filterwarnings("ignore", category=SyntaxWarning)
 import vlib  # noqa: E402
 
 
+class StageTimeout(BaseException):
+    """raised by the watchdog inside a stage (BaseException: a blanket `except Exception` of a harness module or of the
+    real code must not swallow it)"""
+
+
+def _stage_limit(tier):
+    # generous: the slowest quick stage takes ~3 min on a loaded machine, the slowest thorough stage ~25 min
+    env = os.environ.get("VERIF_STAGE_LIMIT_S")
+    if env:
+        return int(env)
+    return 1200 if tier == "quick" else 7200
+
+
+class _Watchdog:
+    """SIGUSR1 from a timer thread (SIGALRM / ITIMER_REAL belong to the inner time-outs of props/C04.py and props/C05.py)"""
+
+    def __init__(self, seconds, stage):
+        self.seconds, self.stage = seconds, stage
+
+    def _fire(self, signum, frame):
+        raise StageTimeout("stage %s exceeded %d s (runaway loop in the code under test or in the harness)" % (self.stage, self.seconds))
+
+    def __enter__(self):
+        import signal
+        import threading
+        self.prev = signal.signal(signal.SIGUSR1, self._fire)
+        main_id = threading.main_thread().ident
+        self.timer = threading.Timer(self.seconds, lambda: signal.pthread_kill(main_id, signal.SIGUSR1))
+        self.timer.daemon = True
+        self.timer.start()
+
+    def __exit__(self, *a):
+        import signal
+        self.timer.cancel()
+        signal.signal(signal.SIGUSR1, self.prev)
+        return False
+
+
 def main():
     ap = argparse.ArgumentParser()
     ap.add_argument("--property", required=True)
@@ -124,11 +162,16 @@ def main():
                     broken.append("translator-selfcheck:%s: %s" % (table, msgs[0]))
         except Exception:
             gen_selfcheck = {"error": [traceback.format_exc()[-800:]]}
-    # 4. correspondence
+    # 4. correspondence (under a watchdog: a change that makes the REAL code loop without end - e.g. a reader that takes a
+    #    garbage length for a list - must end as a broken obligation with the oracle still run, not as a hung check)
     corr_error = None
     if driver_ok:
         try:
-            mod.correspondence(ctx)
+            with _Watchdog(_stage_limit(args.tier), "correspondence"):
+                mod.correspondence(ctx)
+        except StageTimeout as ex:
+            corr_error = "%s\n%s" % (ex, traceback.format_exc()[-2500:])
+            broken.append("correspondence-timeout")
         except Exception:
             corr_error = traceback.format_exc()[-3000:]
             broken.append("correspondence-crashed")
@@ -139,7 +182,11 @@ def main():
     # 5. oracle (failing-input search on the real code); seeded with the disagreeing inputs
     oracle_error = None
     try:
-        mod.oracle(ctx, ctx.disagreements, broken)
+        with _Watchdog(_stage_limit(args.tier), "oracle"):
+            mod.oracle(ctx, ctx.disagreements, broken)
+    except StageTimeout as ex:
+        oracle_error = "%s\n%s" % (ex, traceback.format_exc()[-2500:])
+        broken.append("oracle-timeout")
     except Exception:
         oracle_error = traceback.format_exc()[-3000:]
         broken.append("oracle-crashed")
